@@ -38,7 +38,9 @@ int write_wdc(Memory *memory, FILE *out)
 
   for (n = memory->low_address; n <= memory->high_address; n++)
   {
-    if (memory->read_debug(n) == DL_EMPTY || length == 65536)
+    const bool is_empty = memory->read_debug(n) == DL_EMPTY;
+
+    if (is_empty || length == 65536)
     {
       if (length != 0)
       {
@@ -50,7 +52,10 @@ int write_wdc(Memory *memory, FILE *out)
         address = -1;
       }
     }
-      else
+
+    // A full block only starts a new one: the byte at n still has to be
+    // stored.
+    if (!is_empty)
     {
       if (address == -1) { address = n; }
 
